@@ -83,8 +83,18 @@ pub fn judge_faulty(plan: &ClientPlan, run: &ClientRun, out: &mut RunOut) {
                 return;
             }
             OpResult::Hang => {
-                // hangs are C10's business; the log up to here is still judged
+                // hangs as such are C10's business; the log up to here is still judged - and where the
+                // call was waiting on a connection that had fallen silent, C09's own clause applies: the
+                // failure (a time-out) was never noticed, so the connection was never abandoned
                 out.stats.hit("probe.run_ended_in_hang");
+                let pt = run.pt.lock().unwrap();
+                if let Some(f) = pt.fired.iter().filter(|f| matches!(f.kind, FaultKind::Silence | FaultKind::StallMid(_)) && f.seq >= o.log_from).last() {
+                    out.fail(
+                        "not_abandoned",
+                        "r2/never_timed_out",
+                        format!("connection {} fell silent during {:02x} {:02x} (event #{}); {} was still waiting on it a virtual day later (read_card_timeout = {})", f.conn, f.during.0, f.during.1, f.seq, o.name, plan.cfg.read_card_timeout),
+                    );
+                }
             }
             _ => {}
         }
@@ -684,6 +694,19 @@ impl Check for C09 {
                 p
             }
         }));
+        // silence at every point of a card reading with the configured time at its extremes
+        {
+            let ops = vec![card_op(), card_op()];
+            let pts = dry_points(&ops, 1);
+            fams.push(Family::new("silence_in_card_reading_with_timeout_extremes", (pts as u64 - 12) * 4 * 2, true, move |i, _| {
+                let mut p = ClientPlan::plain(ops.clone());
+                p.cfg.read_card_timeout = [0u8, 1, 254, 255][(i % 4) as usize];
+                let kind = if (i / 4) % 2 == 0 { FaultKind::Silence } else { FaultKind::StallMid(2) };
+                p.faults = vec![FaultSpec { conn: 0, point: 13 + (i / 8) as u16, kind }];
+                p.label = "single/silence_tau".into();
+                p
+            }));
+        }
         // an exchange the terminal ends with an abort has completed normally, whatever the code and
         // whatever the client makes of it ('receiver not ready' at end-of-day is even tolerated): the
         // connection is kept and the next call goes out on it
